@@ -402,7 +402,7 @@ impl Resolver<'_> {
                     if (op.d >> 5) & 1 == 1 {
                         info = info.set_type_id(TypeId(pool_uuid(3, 1)));
                     }
-                    let value = if (op.d >> 6) % 16 == 15 {
+                    let value = if (op.d >> 9) & 1 == 1 {
                         encode_for(v, &Value::String("not a service info".into()))
                     } else {
                         let mut sv = SerializedValue::serialize(info).expect("info");
